@@ -104,8 +104,7 @@ def serialize_compact(
     :param registry: a JWSRegistry to use
     :return: JWS in str
     """
-    if registry is None:
-        registry = construct_registry(algorithms)
+    registry = construct_registry(algorithms, registry)
 
     registry.check_header(protected)
     obj = CompactSignature(protected, to_bytes(payload))
@@ -131,8 +130,7 @@ def validate_compact(
     :param algorithms: a list of allowed algorithms
     :param registry: a JWSRegistry to use
     """
-    if registry is None:
-        registry = construct_registry(algorithms)
+    registry = construct_registry(algorithms, registry)
 
     headers = obj.headers()
     registry.check_header(headers)
@@ -224,8 +222,7 @@ def serialize_json(
             "signature":"<signature contents>"
         }
     """
-    if registry is None:
-        registry = construct_registry(algorithms)
+    registry = construct_registry(algorithms, registry)
 
     def find_key(obj: Any) -> Key:
         return guess_key(private_key, obj, True)
@@ -268,8 +265,7 @@ def deserialize_json(
     :return: object of the SignatureData
     :raise: ValueError or BadSignatureError
     """
-    if registry is None:
-        registry = construct_registry(algorithms)
+    registry = construct_registry(algorithms, registry)
 
     def find_key(obj: Any) -> Key:
         return guess_key(public_key, obj)
